@@ -27,6 +27,9 @@ CHECKS['C03'] = dict(tech='MIR symbolic execution (mirsym) of the replica handle
 CHECKS['C05'] = dict(tech='MIR symbolic execution (mirsym) of the replica handler coroutines with an effect log + z3',
     text='one handler step from an arbitrary replica state: held certificates never decrease and are adopted only when accepted, view changes only with a certificate for the preceding view, every emitted new-view carries the highest certificate held (commit on ties), (view, phase) monotone',
     note='same trusted base as C03; conformance of the accept/reject classes to spec/informal-spec/replica.rs is covered only through these obligations, not as a full transition-relation comparison', ref='4/C03-C05')
+CHECKS['C18'] = dict(tech='MIR symbolic execution (mirsym) of ValidatorAddrs::update, ValidatorAddrsWatch::update (coroutine) and NetAddress::is_newer + z3',
+    text='bounded (committee of 2 / 3 plus an outsider, batches of <= 2 / 3 announcements): from an arbitrary authentic address book, Ok/Err classification and the resulting (and the published) book equal the specified ones on every path: only validly signed, member, strictly newer (version, timestamp) entries are stored, a rejected batch leaves the published book unchanged, two valid announcements commute',
+    note='trusted: im::HashMap as association list, Watch as a mutex-guarded cell, ideal signatures; gossip scheduling outside', ref='4/C18')
 NA = {
  'C01': 'agreement quantifies over all multi-node schedules x Byzantine behaviours x crash points of the async replica system; no bounded solver encoding of the real replicas is within reach (its local obligations are decided under C02, C03, C04, C05, C07, C11)',
  'C06': 'liveness over fair infinite suffixes from adversarially reached states; not expressible as a bounded symbolic-execution query',
